@@ -72,7 +72,7 @@ def run_check(pid, harnesses, tier="quick", seed=0, budget=None, level="proof", 
 
     n_obl = n_dis = 0
     n_known_obl = 0
-    violations, undecided, crashes, known_hits = [], [], [], []
+    violations, undecided, crashes, known_hits, notes = [], [], [], [], []
     by_kind, by_backend = {}, {}
     solve_s = 0.0; max_t = 0.0; paths = 0
     functions = {}
@@ -92,6 +92,9 @@ def run_check(pid, harnesses, tier="quick", seed=0, budget=None, level="proof", 
         paths += rec["paths"]
         names = set()
         for o in rec["obligations"]:
+            if o["kind"] == "proof-side-condition" and o["status"] != "unsat":
+                names.add(o["name"])
+                continue            # reported as a note (see below), not an obligation of the property
             n_obl += 1
             names.add(o["name"])
             by_kind[o["kind"]] = by_kind.get(o["kind"], 0) + 1
@@ -124,12 +127,17 @@ def run_check(pid, harnesses, tier="quick", seed=0, budget=None, level="proof", 
                 continue
             in_ledger = f["name"] in led
             if f.get("kind") == "proof-side-condition":
-                # a side condition of the proof method (not a clause of the property): its failure means the argument no longer applies
-                undecided.append((hid, f["name"], "side condition of the proof no longer holds: " + str(f.get("meta", ""))[:160]))
+                # a side condition of an inductive extension (not a clause of the property): when it no longer holds the claim falls back to the
+                # enumerated counts, which are still proved; recorded as a note, no effect on the verdict
+                notes.append((hid, f["name"], "induction side condition no longer holds, claim restricted to the enumerated loop counts: " + str(f.get("meta", ""))[:120]))
             elif f.get("replayed"):
                 violations.append((hid, f, "replayed"))
-            elif f["status"] == "sat" and in_ledger:
+            elif f["status"] == "sat" and in_ledger and not f.get("sat_untrusted"):
                 violations.append((hid, f, "no-failing-input-found"))
+            elif f["status"] == "sat" and in_ledger:
+                # `sat` over uninterpreted abstractions of exp / log / ... is not a counterexample over the reals, and neither the model nor the
+                # native search reproduced a failure on the real code: not decided
+                undecided.append((hid, f["name"], "sat only over uninterpreted abstractions, no failing input reproduced natively"))
             else:
                 undecided.append((hid, f["name"], f"{f['status']}" + ("" if in_ledger else " (obligation not in ledger)")))
         if not rec["obligations"]:
@@ -159,6 +167,8 @@ def run_check(pid, harnesses, tier="quick", seed=0, budget=None, level="proof", 
         print(f"VIOLATION property={pid} replay={path}{tail}")
         print(f"  obligation {f['name']} (line {f.get('line')}) in {hid}: {f['status']}; native={f.get('native')}")
         vio_lines += 1
+    for why in sorted({w for _, _, w in notes}):
+        print(f"NOTE property={pid} {why} [{sum(1 for _, _, w in notes if w == why)} harness(es)]")
     for hid, name, why in undecided:
         print(f"UNDECIDED property={pid} harness={hid} obligation={name} reason={why}")
     for hid, why, tr in crashes:
@@ -177,6 +187,7 @@ def run_check(pid, harnesses, tier="quick", seed=0, budget=None, level="proof", 
         "samples": samples,
         "known_findings_hit": [f"{h} :: {n}" for h, n, _ in sorted(set(known_hits))],
         "undecided": [f"{h} :: {n} :: {w}" for h, n, w in undecided],
+        "notes": sorted({w for _, _, w in notes}),
         "not_decided_clauses": list(not_decided),
         "bounded_in": bounded_in or {}, "unbounded_in": unbounded_in or [],
     }
